@@ -2,8 +2,12 @@ package c03
 
 import (
 	"go/ast"
-	"go/parser"
+	"go/constant"
 	"go/token"
+	"go/types"
+	"regexp"
+
+	"verif/oracle/gotypes"
 )
 
 // Scope predicates of the open findings of C03. They are evaluated in the
@@ -21,12 +25,101 @@ const ScopeLabelledBranchInRange = "labelled-continue-or-break-in-range"
 // recursive type", upstream issue 440).
 const ScopeRecursiveType = "recursive-type-declaration"
 
-func parseFile(src string) *ast.File {
-	f, err := parser.ParseFile(token.NewFileSet(), "main.go", src, parser.SkipObjectResolution)
-	if err != nil {
-		return nil
+// ScopeIndexEqualLen: a constant index equal to the length of the indexed array
+// (a[3] for a [3]int, or a slice bound one above it), which scriggo accepts
+// (C03-F3: off-by-one in checkIndex; the repair contradicts a test of the repository).
+const ScopeIndexEqualLen = "constant-index-equal-to-array-length"
+
+// ScopeFloatDivZero: a non-constant floating-point or complex operand divided
+// by a constant zero, which Go accepts and scriggo rejects (C03-F4; the
+// repository's tests expect the rejection).
+const ScopeFloatDivZero = "float-division-by-constant-zero"
+
+// AllScopes lists the scope names the worker understands.
+var AllScopes = []string{ScopeLabelledBranchInRange, ScopeRecursiveType, ScopeIndexEqualLen, ScopeFloatDivZero}
+
+// inScope returns the first active scope the program falls in, or "".
+func inScope(r *gotypes.Result, active []string) string {
+	if r.File == nil {
+		return ""
 	}
-	return f
+	for _, sc := range active {
+		switch sc {
+		case ScopeLabelledBranchInRange:
+			if hasLabelledBranchInRange(r.File) {
+				return sc
+			}
+		case ScopeRecursiveType:
+			if hasRecursiveType(r.File) {
+				return sc
+			}
+		case ScopeIndexEqualLen:
+			if hasIndexEqualLen(r) {
+				return sc
+			}
+		case ScopeFloatDivZero:
+			if hasFloatDivZero(r) {
+				return sc
+			}
+		}
+	}
+	return ""
+}
+
+var outOfBounds = regexp.MustCompile(`index (\d+) out of bounds \[0:(\d+)\]`)
+
+// hasIndexEqualLen: the reference reports "index N out of bounds [0:N]".
+func hasIndexEqualLen(r *gotypes.Result) bool {
+	for _, e := range r.Errs {
+		if m := outOfBounds.FindStringSubmatch(e.Error()); m != nil && m[1] == m[2] {
+			return true
+		}
+	}
+	return false
+}
+
+// hasFloatDivZero: x / c or x /= c with x a non-constant float or complex
+// operand and c a constant equal to zero.
+func hasFloatDivZero(r *gotypes.Result) bool {
+	if r.Info == nil {
+		return false
+	}
+	isZeroConst := func(e ast.Expr) bool {
+		tv, ok := r.Info.Types[e]
+		if !ok || tv.Value == nil {
+			return false
+		}
+		switch tv.Value.Kind() {
+		case constant.Int, constant.Float:
+			return constant.Sign(tv.Value) == 0
+		case constant.Complex:
+			return constant.Sign(constant.Real(tv.Value)) == 0 && constant.Sign(constant.Imag(tv.Value)) == 0
+		}
+		return false
+	}
+	isFloatVar := func(e ast.Expr) bool {
+		tv, ok := r.Info.Types[e]
+		if !ok || tv.Value != nil || tv.Type == nil {
+			return false
+		}
+		b, ok := tv.Type.Underlying().(*types.Basic)
+		return ok && b.Info()&(types.IsFloat|types.IsComplex) != 0
+	}
+	found := false
+	ast.Inspect(r.File, func(n ast.Node) bool {
+		switch x := n.(type) {
+		case *ast.BinaryExpr:
+			if x.Op == token.QUO && isZeroConst(x.Y) && isFloatVar(x.X) {
+				found = true
+			}
+		case *ast.AssignStmt:
+			if x.Tok == token.QUO_ASSIGN && len(x.Lhs) == 1 && len(x.Rhs) == 1 && isZeroConst(x.Rhs[0]) && isFloatVar(x.Lhs[0]) {
+				found = true
+			}
+		}
+		return true
+	})
+	return found
 }
 
 func hasLabelledBranchInRange(f *ast.File) bool {
